@@ -351,6 +351,94 @@ def check_reject(case):
     return PASS(len(timed) >= 2 or F.depth(f) >= 3, labels)
 
 
+# ---- reject_live lane ------------------------------------------------------
+
+@st.composite
+def reject_live_cases(draw, tier):
+    mode = draw(st.sampled_from(['online', 'pastified']))
+    f, vs = draw(F.formulas({'online': PROF_PAST, 'pastified': PROF_ON}[mode]))
+    f = draw(ensure_timed(f, mode))
+    if not any(b for x in F.subterms(f) if x[0] in ('tun', 'tbin') for b in (x[2], x[3])) or not F.fvars(f):
+        # every bound is 0 (a multiple of every period), or no variable is left: put a window of positive width on top
+        b = draw(st.integers(1, 3))
+        g = f if F.fvars(f) else ('pred', '>=', ('var', vs[0]), ('const', 1.0))
+        f = ('tun', draw(st.sampled_from(['once', 'historically'] if mode == 'online' else ['once', 'historically', 'eventually', 'always'])), draw(st.integers(0, b)), b, g)
+    n = draw(st.sampled_from([0, 1, 2, 3, 5]))
+    p1 = draw(st.sampled_from([1, 2, 10]))
+    bounds = [b * p1 for x in F.subterms(f) if x[0] in ('tun', 'tbin') for b in (x[2], x[3])]
+    p2 = draw(st.sampled_from([p for p in (3, 4, 7, 20, 30) if any(b % p for b in bounds)]))
+    return {'formula': f, 'vars': vs, 'mode': mode, 'p1': p1, 'p2': p2,
+            'trace': draw(F.traces(vs, n=max(n, 1))), 'before': n,
+            # calls after the period has left the grid of the bounds; every one of them has to be rejected
+            'calls': ['reset'] + draw(st.lists(st.sampled_from(['reset', 'update']), min_size=0, max_size=3)),
+            'after': draw(F.traces(vs, n=draw(st.sampled_from([1, 2, 4]))))}
+
+
+def check_reject_live(case):
+    """A live online monitor whose sampling period is changed so that a bound is no longer a multiple of it: reset() (which
+    rebuilds the operators) and every later call are rejected with RTAMTException - never a value, never another exception - until
+    the period fits again; then reset() makes it a fresh monitor."""
+    from ..monitors import build
+    f = from_json(case['formula'])
+    mode = case['mode']
+    used = F.fvars(f)
+    labels = ['mode:live-' + mode, 'updates-before:%d' % case['before']]
+    if not used:
+        return DISCARD('no-variable', labels)
+    if any(o in F.UNBOUNDED_FUTURE for o in F.ops(f)) or (mode == 'online' and F.has_future(f)):
+        return DISCARD('unsupported-online', labels)
+    p1, p2 = case['p1'], case['p2']
+    bounds = [b * p1 for x in F.subterms(f) if x[0] in ('tun', 'tbin') for b in (x[2], x[3])]
+    if all(b % p2 == 0 for b in bounds):
+        return DISCARD('still-on-grid', labels)
+    feed = [v for v in case['vars'] if v in used]
+    text = 'out = ' + F.show(f, lambda a, b: '[%d,%d]' % (a * p1, b * p1))
+    desc = 'mode %s, default unit ms, period %d ms, then %d ms\nspec: %s' % (mode, p1, p2, text)
+    try:
+        spec = build('dt_on', text, feed, unit='ms', period=(p1, 'ms'), pastify=(mode == 'pastified'))
+        for i in range(case['before']):
+            spec.update(i * p1, [(v, float(case['trace'][v][i])) for v in feed])
+    except Exception as e:  # noqa
+        return DISCARD('set-up-raises(C17):' + type(e).__name__, labels)
+    spec.set_sampling_period(p2, 'ms')
+    hist = 'parse%s, %d update(s), set_sampling_period(%d, ms)' % (' + pastify' if mode == 'pastified' else '', case['before'], p2)
+    for c in case['calls']:
+        try:
+            if c == 'reset':
+                r = spec.reset()
+            else:
+                r = spec.update(0, [(v, 1.0) for v in feed])
+        except RecursionError:
+            raise
+        except Exception as e:  # noqa
+            o = exc_outcome(e)
+            if not o[2]:
+                return FAIL('off-grid-wrong-exception:live:%s:%s' % (c, o[1]), desc + '\nafter %s: %s() raised %s (not RTAMTException): %s at %s' % (hist, c, o[1], o[3], o[4]), labels)
+        else:
+            return FAIL('off-grid-accepted:live:' + c, desc + '\nafter %s: %s() returned %r although a bound is not a multiple of the sampling period' % (hist, c, r), labels)
+        hist += ', %s() rejected' % c
+    # back on the grid: reset() gives a fresh monitor
+    got, want = [], []
+    try:
+        spec.set_sampling_period(p1, 'ms')
+        spec.reset()
+        fresh = build('dt_on', text, feed, unit='ms', period=(p1, 'ms'), pastify=(mode == 'pastified'))
+        n2 = len(case['after'][case['vars'][0]])
+        for i in range(n2):
+            args = [(v, float(case['after'][v][i])) for v in feed]
+            got.append(spec.update(i * p1, list(args)))
+            want.append(fresh.update(i * p1, list(args)))
+    except RecursionError:
+        raise
+    except Exception as e:  # noqa
+        o = exc_outcome(e)
+        return FAIL('live-recover-raises:%s' % o[1], desc + '\nafter %s, set_sampling_period(%d, ms), reset(): raised %s: %s at %s' % (hist, p1, o[1], o[3], o[4]), labels)
+    if len(got) != len(want) or not all(same(a, b, False) for a, b in zip(got, want)) or spec.sampling_violation_counter != fresh.sampling_violation_counter:
+        return FAIL('live-recover-differs', desc + '\nafter %s, set_sampling_period(%d, ms), reset(): %r (counter %r)\nfresh monitor: %r (counter %r)' % (
+            hist, p1, got, spec.sampling_violation_counter, want, fresh.sampling_violation_counter), labels)
+    return PASS(case['before'] >= 1 and len(case['calls']) >= 2, labels)
+
+
 # ---- dense lane ------------------------------------------------------------
 
 @st.composite
@@ -918,6 +1006,7 @@ LANES = [
     Lane('online', lambda tier: cases(tier, 'online'), check, 1500, 20000, std_candidates),
     Lane('pastified', lambda tier: cases(tier, 'pastified'), check, 2500, 40000, std_candidates),
     Lane('reject', lambda tier: reject_cases(tier), check_reject, 1500, 20000, std_candidates),
+    Lane('reject_live', lambda tier: reject_live_cases(tier), check_reject_live, 1500, 15000, std_candidates),
     Lane('dense_decimal', lambda tier: dense_decimal_cases(tier), check_dense_decimal, 1500, 15000, None),
     Lane('dense', lambda tier: dense_cases(tier), check_dense, 1500, 20000, cand_dense),
     Lane('dense_online', lambda tier: dense_online_cases(tier), check_dense_online, 1500, 15000, cand_dense),
